@@ -561,6 +561,19 @@ func history(tc tcase) {
 		if !subset || busy > 0 || idle > conns {
 			rep.Violation("reuse-idle-set-inconsistent", fmt.Sprintf("quiescent: conns=%d idle=%d subset=%v busy=%d", conns, idle, subset, busy), map[string]any{"case": tc})
 		}
+		// conservation for the non-pipelined pool: with no call in flight every tracked
+		// connection is either idle (admits a query) or still waits for the reply of an
+		// abandoned query; a healthy connection that is neither has lost its capacity
+		// (a late dial result may still be on its way into the idle set: poll briefly)
+		waiting := rt.VerifBusy()
+		for i := 0; i < 400 && conns != idle+waiting; i++ {
+			time.Sleep(5 * time.Millisecond)
+			_, conns, idle, _, _ = rt.VerifSnapshot()
+			waiting = rt.VerifBusy()
+		}
+		if conns != idle+waiting {
+			rep.Violation("capacity-lost-reuse-conn-neither-idle-nor-busy", fmt.Sprintf("no call in flight: %d tracked connections, %d idle, %d still waiting for an abandoned query's reply: %d healthy connection(s) admit nothing", conns, idle, waiting, conns-idle-waiting), map[string]any{"case": tc, "history_ops": ops})
+		}
 		live = idle
 		rep.Count("conservation_checks", 1)
 	}
